@@ -27,6 +27,7 @@ MANIFEST = dict(
 TRUSTED = ["sqlite3 (transactions, PARSE_DECLTYPES timestamp converter), threading.RLock", "base64 module agrees with the Lean model (tied on every stored content)"]
 ASSUMPTIONS = [
     "each add/get is atomic (RLock + one sqlite transaction): runtime behaviour, stressed with threads but not proved",
+    "the model's add is one atomic step: tied by the overwrite probe (lookups by a second SqliteCache object at every SQL statement of add) and the thread stress",
     "expiry boundary instant counts as fresh (now > created + timeout is the expiry test), as pinned by the suite",
 ]
 
@@ -246,6 +247,7 @@ def thread_stress(ctx, res, real, nthreads, nops):
     real.reset()
     Clock.value = 0
     stored = {0: set(), 1: set()}
+    committed = {0: False, 1: False}
     lock = threading.Lock()
     errors = []
     bad = []
@@ -262,8 +264,12 @@ def thread_stress(ctx, res, real, nthreads, nops):
                     with lock:
                         stored[u].add(c)
                     cache.add(URLS[u], c)
+                    committed[u] = True
                 else:
+                    was = committed[u]
                     r = cache.get(URLS[u])
+                    if r is None and was:
+                        bad.append((u, "nothing although an entry had been stored and is fresh"))
                     if r is not None:
                         with lock:
                             ok = bytes(r) in stored[u]
@@ -281,6 +287,65 @@ def thread_stress(ctx, res, real, nthreads, nops):
     if errors or bad:
         res.failures.append(dict(what="concurrent use of one cache database raised or returned foreign bytes",
                                  case=dict(kind="stress", threads=nthreads, ops=nops), errors=errors[:5], bad=bad[:5]))
+
+
+def overwrite_probe(ctx, res, real):
+    """statement-level interleaving: while one SqliteCache object overwrites the (fresh) entry of a url, a second object
+    on the same file looks both urls up at the start of *every* SQL statement of the writer.  The model's add is one
+    atomic step, so each lookup must return the old or the new bytes -- never nothing, never an exception."""
+    zc = real.zc
+    real.reset()
+    Clock.value = 0
+    writer = zc.SqliteCache(path=real.path, timeout=3600)
+    reader = zc.SqliteCache(path=real.path, timeout=3600)
+    real_connect = sqlite3.connect
+    hook = {"cb": None}
+
+    def connect(*a, **k):
+        con = real_connect(*a, **k)
+        if hook["cb"] is not None:
+            con.set_trace_callback(hook["cb"])
+        return con
+    writer.add(URLS[0], b"gen-0")
+    writer.add(URLS[1], b"other")
+    seen = []
+
+    def on_statement(sql):
+        cb, hook["cb"] = hook["cb"], None          # the reader's own connection is not traced
+        try:
+            for u in (0, 1):
+                try:
+                    r = reader.get(URLS[u])
+                    seen.append((sql.split()[0].upper(), u, None if r is None else bytes(r)))
+                except Exception as e:  # noqa
+                    seen.append((sql.split()[0].upper(), u, "raised " + repr(e)))
+        finally:
+            hook["cb"] = cb
+    zc.sqlite3.connect = connect
+    try:
+        for gen in range(1, ctx.n(6, 40)):
+            old, new = ("gen-%d" % (gen - 1)).encode(), ("gen-%d" % gen).encode()
+            del seen[:]
+            hook["cb"] = on_statement
+            try:
+                writer.add(URLS[0], new)
+            finally:
+                hook["cb"] = None
+            res.case(key=("overwrite-probe", gen), nontrivial=True)
+            res.count("overwrite-probe-lookups", len(seen))
+            for stmt, u, got in seen:
+                res.count("overwrite-probe-at:" + stmt)
+                ok = got in (old, new) if u == 0 else got == b"other"
+                if not ok:
+                    res.failures.append(dict(
+                        what="lookup through a second cache object while a fresh entry was being overwritten returned %r (at the writer's %s statement; "
+                             "expected the old or the new bytes)" % (got, stmt),
+                        case=dict(kind="overwrite-probe", generation=gen, url=u, statement=stmt)))
+                    return
+            if not any(st == "INSERT" for st, _, _ in seen):
+                res.count("overwrite-probe-no-insert-seen")
+    finally:
+        zc.sqlite3.connect = real_connect
 
 
 def run(ctx):
@@ -303,6 +368,7 @@ def run(ctx):
         rnd = [random_history(ctx.rng, ctx.rng.randrange(2, 10)) for _ in range(ctx.n(600, 12000))]
         check_batch(ctx, res, real, rnd, factory, "random")
         thread_stress(ctx, res, real, ctx.n(4, 8), ctx.n(150, 1500))
+        overwrite_probe(ctx, res, real)
     finally:
         _uninstall_clock()
         shutil.rmtree(tmp, ignore_errors=True)
@@ -311,7 +377,8 @@ def run(ctx):
     res.rule = ("all histories over add(2 urls x 2 contents) and clock advances {1us, 1s, 2s-1us} up to the stated length "
                 "(timeout 2s, so the expiry instant and its neighbours are hit exactly), both urls looked up after every "
                 "step, for both backends; random histories with two on-disk versions, random bytes, timeouts "
-                "None/0/1s/2s/3600s and Transport.load with a counting fetcher; one multi-thread stress on a shared file. "
+                "None/0/1s/2s/3600s and Transport.load with a counting fetcher; one multi-thread stress on a shared file; a statement-level "
+                "interleaving probe (a second cache object looks both urls up at the start of every SQL statement of an overwrite). "
                 "distinct = distinct op lists; non-trivial = stores and lookups both present")
     return res
 
@@ -327,6 +394,14 @@ def replay(ctx, payload):
         return (not r.failures), "stress rerun failures=%d" % len(r.failures)
     zc = _install_clock()
     tmp = tempfile.mkdtemp(prefix="zeepverif-c15-")
+    if case.get("kind") == "overwrite-probe":
+        try:
+            r = Result()
+            overwrite_probe(ctx, r, Real(zc, tmp))
+        finally:
+            _uninstall_clock()
+            shutil.rmtree(tmp, ignore_errors=True)
+        return (not r.failures), "overwrite probe rerun: %s" % (r.failures[0]["what"] if r.failures else "every lookup returned the old or the new bytes")
     try:
         real = Real(zc, tmp)
         outs, errors = run_real(real, case["ops"], make_transport_factory())
